@@ -1,13 +1,14 @@
 #!/bin/bash
-# usage: import_seed2.sh <prop>  -- confirm round-2 seeds of a sub-agent (in /tmp/wt_<prop>/seeded2/{1,2}) and copy the confirmed ones to /verif/seeded/<prop>-{4,5}
-prop=$1
+# usage: import_seed2.sh <prop> [<subdir> <offset>]  -- confirm round-N seeds of a sub-agent (in /tmp/wt_<prop>/<subdir>/{1,2})
+# and copy the confirmed ones to /verif/seeded/<prop>-{offset+1,offset+2}   (round 2: seeded2 3; round 3: seeded3 5)
+prop=$1; sub=${2:-seeded2}; off=${3:-3}
 for k in 1 2; do
-  src=/tmp/wt_$prop/seeded2/$k
+  src=/tmp/wt_$prop/$sub/$k
   [ -f $src/patch.diff ] || { echo "$prop $k: no patch"; continue; }
-  res=$(bash /verif/engine/confirm_seed.sh $prop $k seeded2)
+  res=$(bash /verif/engine/confirm_seed.sh $prop $k $sub)
   echo "$res"
   if echo "$res" | grep -q "tests_with_patch_failures=0" && ! echo "$res" | grep -q "demo_with_patch_rc=0" && echo "$res" | grep -q "demo_without_rc=0"; then
-    dst=/verif/seeded/$prop-$((3+k)); rm -rf $dst; mkdir -p $dst; cp -r $src/. $dst/
+    dst=/verif/seeded/$prop-$((off+k)); rm -rf $dst; mkdir -p $dst; cp -r $src/. $dst/
     echo "$res" > $dst/confirmation.txt
   else
     echo "$prop $k: NOT CONFIRMED"
